@@ -11,6 +11,30 @@ checks = {
  "C10": (EXPL, "bounded-exhaustive input enumeration (all byte strings to length 2/3, every 21-bit code point value, class alphabet to length 3/5) against a reference coercion and an html5lib-validated WHATWG tokenizer",
    "Every byte string up to the bound, every code point in three contexts and every ill-formed UTF-8 class is run through the real HTMLEscaped and judged by an independent reference (UTF-8 decoder, interchange-valid ranges, tokenizer). Exhaustive within the stated bounds; the function is a per-code-point map, so the bounded space covers its behaviour classes.",
    "Trusted: oracle O6/O1 implementations, Go's html.UnescapeString for the round-trip clause; strings longer than the bounds are assumed to behave as compositions of the covered pieces.", "DESIGN.md §4 C10"),
+ "C11": (EXPL, "bounded-exhaustive input enumeration (all 1024 case foldings of javascript: x every byte / code point insertion, reference spellings, class strings to length 5/6, all byte strings to length 2/3) against a WPT-validated WHATWG scheme extractor",
+   "Every enumerated string goes through the real URLSanitized; an independent implementation of URL input pre-processing + scheme states (validated on WPT urltestdata.json) decides whether a browser would see javascript:, before and after character-reference decoding; a byte-level recogniser decides the 'must be returned unchanged' clause.",
+   "Trusted: oracle O2 and O1's character-reference decoding; bounds as stated in evidence.", "DESIGN.md §4 C11"),
+ "C12": (EXPL, "bounded-exhaustive input enumeration (27-symbol class alphabet to length 4/6, all byte strings to length 2/3 in candidate contexts) re-parsed by an independent WHATWG srcset parser",
+   "Every enumerated string goes through the real URLSetSanitized; the result is re-parsed with the HTML Standard's srcset algorithm written from the spec; every candidate must be safe, descriptors numeric, items copied in order from the input, result idempotent.",
+   "Trusted: oracle O3 (srcset parser) and O2; 'a number' read leniently as anything strconv.ParseFloat accepts.", "DESIGN.md §4 C12"),
+ "C13": (EXPL, "bounded-exhaustive enumeration of format strings (21 prefixes x bodies of <=3/4 symbols), argument assignments (21 values incl. missing), appended strings (all byte strings <=2) and parameter maps (<=2 entries), judged by an RFC 3986 / WHATWG dot-segment reference model",
+   "All format/argument/base/parameter combinations within the bounds are run through the real constructors (formats via the FromFlag twin, bound to FromConstant by generated constant call sites) and compared with an independent percent-encoder, component splitter and dot-segment resolver.",
+   "Trusted: oracle O5. The sub-clause 'independent of map iteration order' cannot be enumerated (runtime-randomised); it is sampled 9x per map and flagged exhaustive:false.", "DESIGN.md §4 C13"),
+ "C15": (EXPL, "bounded-exhaustive enumeration of StyleProperties assignments (every field, all byte strings to length 2/3, 27-symbol CSS metacharacter alphabet to length 3/5, all field pairs, lists of 1-3 elements) parsed by an independent CSS Syntax 3 tokenizer and declaration-list parser",
+   "Every enumerated StyleProperties value goes through the real StyleFromProperties; the result is tokenized and parsed as a declaration list by an independent CSS Syntax Level 3 implementation; declaration set/order, value alphabet, token hygiene and url() safety are decided per case.",
+   "Trusted: oracle O4 (written from the spec, self-tested on hand-derived cases; no conformance corpus is available offline).", "DESIGN.md §4 C15"),
+ "C16": (EXPL, "bounded-exhaustive enumeration of selectors (31-symbol alphabet to length 4/5, all byte strings to length 2 in three frames, nested quote/bracket frames) x 4 styles, parsed by an independent CSS Syntax 3 stylesheet parser",
+   "Every enumerated selector goes through the real CSSRule with four styles from the checked constructors; accepted results are parsed as a stylesheet by an independent CSS Syntax Level 3 implementation and must be exactly one closed qualified rule with the selector as prelude and the style as block.",
+   "Trusted: oracle O4. Leading whitespace/'-->' of a selector are compared modulo top-level skipping (not among the listed tokens).", "DESIGN.md §4 C16"),
+ "C17": (EXPL, "exhaustive enumeration of a JSON value grammar (strings to length 2/3 over 18 hostile symbols, composites, marshalers, raw messages, unencodable values) x generated constant name call sites (all strings <=3 over 8 symbols)",
+   "Every datum of the grammar is passed to the real ScriptFromDataAndConstant through generated constant call sites; the frame, the JSON alphabet, validity and the decoded value are checked against independently written expected values.",
+   "Trusted: encoding/json's decoder as the definition of 'JSON value'. Names/scripts are compile-time constants, so they are covered by 602 generated call sites.", "DESIGN.md §4 C17"),
+ "C18": (EXPL, "bounded-exhaustive enumeration of dynamic values (all byte strings to length 2/3, every Unicode scalar in 4 positions, 14-symbol class alphabet to length 4/6 with and without trailing LF) x 22 constant prefixes and 828 constant arguments via generated call sites",
+   "Every enumerated value goes through the real constructors (panics recovered); a byte-level recogniser decides the pattern and the prefix-hyphen-value composition.",
+   "Constant parameters are only reachable through generated constant call sites (tools/gen_consts.py).", "DESIGN.md §4 C18"),
+ "C20": (EXPL, "bounded-exhaustive enumeration of filenames (16-symbol alphabet incl. separators, dots, NUL, Unicode look-alikes to length 4/5; all byte strings to length 2 alone and around '..') x 12 constant dirs x 7 srcs",
+   "Every enumerated filename goes through the real TrustedSourceFromConstantDir for every generated constant-dir call site and src; the result must be the cleaned constant directory or a direct child of it.",
+   "Linux path semantics (separator '/', list separator ':').", "DESIGN.md §4 C20"),
 }
 not_yet = "check not built yet in this revision (planned: see DESIGN.md §4); not claimed"
 m = {
